@@ -41,6 +41,7 @@ type FuncSpec struct {
 	HoldsAtEntry []string
 	sawStar   bool
 	Lets      map[string]ast.Expr // abbreviations usable in the clauses of this block
+	PreservesTypes []string // classes (type names) left untouched even under 'modifies *'
 	PreservesHeld bool // the callee does not write state guarded by locks the caller holds (no re-entry into the monitor)
 	Locals    []GhostLocal // specification-only recorders owned by this function (initialised at entry, invisible to callers' frames)
 	EntrySets []*GhostSet // ghost assignments that happen when the function is called (definitional)
@@ -479,6 +480,10 @@ func (sp *Specs) parseFile(path string, extern bool) error {
 				curF.Lets = map[string]ast.Expr{}
 			}
 			curF.Lets[strings.TrimSpace(rest[:eq])] = e
+		case "preserves-type":
+			if curF != nil {
+				curF.PreservesTypes = append(curF.PreservesTypes, strings.Fields(strings.ReplaceAll(rest, ",", " "))...)
+			}
 		case "preserves-held":
 			if curF != nil {
 				curF.PreservesHeld = true
